@@ -143,13 +143,21 @@ fn cli_case(map: &[Option<usize>], cs: &CallSet, container: Container, what: &st
 fn eval_cli(map: &[Option<usize>], cs: &CallSet, rows: &[Vec<Cls>], container: Container, what: &str, scratch: &Scratch) -> Option<Viol> {
     let bytes = render(cs, container, &Layout::Single);
     let expect = ref_create(rows, map, None);
-    let sa = sample_arg(map);
+    let mut sa = sample_arg(map);
+    if what == "repeated-entry" {
+        // naming a sample twice (same population) does not add a sample: same spectrum (or a diagnosed error)
+        let first = sa.split(',').next().unwrap_or("").to_string();
+        sa = format!("{sa},{first}");
+    }
     let mut args: Vec<&str> = vec!["create", "-s", &sa];
     // "precision-<p>": an explicit --precision without projection must still print exact integers
     if let Some(p) = what.strip_prefix("precision-") {
         args.extend(["--precision", p]);
     }
     let o = run_sfs(&args, Stdin::Bytes(&bytes), scratch);
+    if what == "repeated-entry" && o.diagnosed_error() && o.stdout.is_empty() {
+        return None;
+    }
     match judge_stdout(&o, &expect.spectrum) {
         Ok(()) => None,
         Err(e) => {
@@ -333,6 +341,9 @@ pub fn run(tier: Tier) -> i32 {
         for c in Container::all() {
             cjobs.push((map.clone(), all.clone(), rows.clone(), c, "every-row".into()));
         }
+        if map.iter().any(|p| p.is_some()) {
+            cjobs.push((map.clone(), all.clone(), rows.clone(), Container::Vcf, "repeated-entry".into()));
+        }
         for p in ["0", "1", "6", "17"] {
             cjobs.push((map.clone(), all.clone(), rows.clone(), Container::Vcf, format!("precision-{p}")));
         }
@@ -360,7 +371,7 @@ pub fn run(tier: Tier) -> i32 {
         name: "cli: sfs create -s".into(),
         evaluations: cjobs.len() as u64,
         nontrivial: nt,
-        note: format!("S={s}: {} maps x ({} one-record VCFs + every-row call set in 4 containers + explicit --precision 0/1/6/17 + 8 decorations in vcf and bcf)", maps.len(), rows.len()),
+        note: format!("S={s}: {} maps x ({} one-record VCFs + every-row call set in 4 containers + explicit --precision 0/1/6/17 + a list naming one sample twice + 8 decorations in vcf and bcf)", maps.len(), rows.len()),
         exhaustive: true,
         extra: vec![],
     });
@@ -399,7 +410,12 @@ pub fn replay(case: &J) -> Option<Vec<String>> {
             let scratch = Scratch::new("c01r");
             let vcf = case.get("vcf")?.as_str()?;
             let what = case.get("what").and_then(|w| w.as_str()).unwrap_or("").to_string();
-            let mut args: Vec<&str> = vec!["create", "-s", case.get("samples")?.as_str()?];
+            let mut sa = case.get("samples")?.as_str()?.to_string();
+            if what == "repeated-entry" {
+                let first = sa.split(',').next().unwrap_or("").to_string();
+                sa = format!("{sa},{first}");
+            }
+            let mut args: Vec<&str> = vec!["create", "-s", &sa];
             if let Some(p) = what.strip_prefix("precision-") {
                 args.extend(["--precision", p]);
             }
